@@ -1008,6 +1008,9 @@ class Columns(Widget, WidgetContainerMixin, WidgetContainerListContentsMixin):
         canvas = CanvasJoin(data)
         if size and canvas.cols() < size[0]:
             canvas.pad_trim_left_right(0, size[0] - canvas.cols())
+        if len(data) < len(self.contents):
+            # a hidden column may get a width later: depend on the hidden widgets as well
+            canvas.set_depends([w for w, _ in self.contents])
         return canvas
 
     def get_cursor_coords(self, size: tuple[()] | tuple[int] | tuple[int, int]) -> tuple[int, int] | None:
